@@ -210,7 +210,7 @@ func TestC18(t *testing.T) {
 	enumerated := 0
 	for {
 		c := c18Gen(e, true, maxN)
-		if idx%n == k {
+		if idx%n == k && firstBatch() {
 			_, nt := c18Expected(c)
 			rec.Case(nt, fmt.Sprint(c))
 			enumerated++
